@@ -163,7 +163,7 @@ def _parse_entries(ans):
     return rows, cols, vals
 
 
-def _space_configs(api, grid, ctx, thorough):
+def _space_configs(api, grid, ctx, thorough, only=None, bary=None):
     """(label, space) for whole-grid, segment and barycentric scalar spaces on `grid`."""
     import numpy as np
     out = []
@@ -182,6 +182,8 @@ def _space_configs(api, grid, ctx, thorough):
     add("P1-whole", lambda: api.function_space(grid, "P", 1))
     add("DP0-segment", lambda: api.function_space(grid, "DP", 0, segments=seg))
     add("P1-segment-bd", lambda: api.function_space(grid, "P", 1, segments=seg, include_boundary_dofs=True))
+    if only is not None:
+        return [(l, s_) for l, s_ in out if l in only]
     if thorough:
         add("DP1-whole", lambda: api.function_space(grid, "DP", 1))
         add("DP1-segment", lambda: api.function_space(grid, "DP", 1, segments=seg))
@@ -191,8 +193,10 @@ def _space_configs(api, grid, ctx, thorough):
         sup = np.array(sorted(ctx.rng.sample(range(1, ne), max(1, ne // 3))), dtype="uint32")
         add("DP0-support", lambda: api.function_space(grid, "DP", 0, support_elements=sup))
         add("DP0-swapped", lambda: api.function_space(grid, "DP", 0, swapped_normals=[segs[0]]))
-    add("DUAL0", lambda: api.function_space(grid, "DUAL", 0))
-    add("P1-bary", lambda: api.function_space(grid, "P", 1).barycentric_representation())
+    if thorough or bary == "DUAL0":
+        add("DUAL0", lambda: api.function_space(grid, "DUAL", 0))
+    if thorough or bary == "P1-bary":
+        add("P1-bary", lambda: api.function_space(grid, "P", 1).barycentric_representation())
     if thorough:
         add("DUAL1", lambda: api.function_space(grid, "DUAL", 1))
         add("DP0-bary", lambda: api.function_space(grid, "DP", 0).barycentric_representation())
@@ -232,7 +236,13 @@ def correspondence(ctx):
     # ---- (a) point maps ------------------------------------------------------------------
     for gname, VED in sorted(grids.items()):
         grid = _mkgrid(api, VED, rng=ctx.rng if ctx.rng.random() < 0.5 else None)
-        for label, sp in _space_configs(api, grid, ctx, ctx.thorough):
+        if ctx.thorough:
+            cfgs = _space_configs(api, grid, ctx, True)
+        elif gname == "octa":
+            cfgs = _space_configs(api, grid, ctx, False, bary=["DUAL0", "P1-bary"][ctx.seed % 2])
+        else:
+            cfgs = _space_configs(api, grid, ctx, False, only=("P1-whole", "P1-segment-bd", "DP0-segment"))
+        for label, sp in cfgs:
             for order in (orders if gname != "cube2" else orders[:1]):
                 lp, w = rule(order)
                 npts = lp.shape[1]
@@ -363,12 +373,11 @@ def correspondence(ctx):
                 res.case(("tidx", kind, variant, order), nontrivial=variant == "segment")
     ctx.log(f"correspondence (b) transform index arrays prepared: {counts['tidx_cases']} cases")
     # ---- (c) the scalar matvec end to end (Laplace single layer, kernel values handed to the model) ----------
-    mv_cases = [("octa", "octa", "DP0-whole", "P1-whole"), ("octa", "cube1", "P1-whole", "DP0-whole")]
+    mv_cases = [("octa", "octa", "P1-whole", "P1-whole"), ("octa", "cube1", "P1-whole", "P1-whole"),
+                ("octa", "octa", "P1-segment-bd", "P1-whole")]
     if ctx.thorough:
-        mv_cases += [("cube1", "cube1", "P1-whole", "P1-whole"), ("octa", "octa", "DP0-segment", "DP0-whole"),
+        mv_cases += [("cube1", "cube1", "DP0-whole", "P1-whole"), ("octa", "octa", "DP0-segment", "DP0-whole"),
                      ("octa", "octa", "P1-segment-bd", "DP0-segment"), ("cube1", "octa", "DP0-segment", "P1-whole")]
-    elif MODEL_VARIANT == "patched":
-        mv_cases += [("octa", "octa", "DP0-segment", "P1-whole")]
     old_order = api.GLOBAL_PARAMETERS.quadrature.regular
     small = _grids(ctx, small=True)
     with fmmstub.scratch_cwd():
@@ -381,8 +390,8 @@ def correspondence(ctx):
                 for gS, gT, labS, labT in mv_cases:
                     gridS = _mkgrid(api, small[gS])
                     gridT = gridS if gT == gS else _mkgrid(api, small[gT], shift=(0.3, 0.2, 2.9), scale=0.8)
-                    dom = dict(_space_configs(api, gridS, ctx, False)).get(labS)
-                    dual = dict(_space_configs(api, gridT, ctx, False)).get(labT)
+                    dom = dict(_space_configs(api, gridS, ctx, False, only=(labS,))).get(labS)
+                    dual = dict(_space_configs(api, gridT, ctx, False, only=(labT,))).get(labT)
                     if dom is None or dual is None:
                         continue
                     x = np.array([ctx.rng.randrange(-8, 9) / 4 for _ in range(dom.global_dof_count)])
@@ -570,11 +579,14 @@ def oracle(ctx, deep=False, only=None):
         fsel = sorted(fam)
         psel = sorted(pots)
     else:
-        # quick: Laplace single layer always; one light family and (every third seed) one heavy family by seed
+        # quick: Laplace single layer (P1/P1: whole grid, segment, two grids) always; by seed one more family
+        # (every third seed a heavy one: hypersingular / Maxwell) and one more potential
         fsel = ["lap_sl", light[ctx.seed % len(light)]]
         if ctx.seed % 3 == 2:
             fsel[1] = heavy[(ctx.seed // 3) % len(heavy)]
-        psel = ["pot_lap_sl", ["pot_lap_dl", "pot_helm_sl_ck", "pot_mh_sl", "pot_helm_dl"][ctx.seed % 4]]
+        psel = ["pot_lap_sl"]
+        if ctx.seed % 3 != 2:
+            psel.append(["pot_lap_dl", "pot_helm_sl_ck", "pot_mh_sl", "pot_helm_dl"][ctx.seed % 4])
     if only:
         fsel = [f for f in fsel if f in only] or fsel
     grids = _grids(ctx, small=False)
@@ -698,12 +710,14 @@ def oracle(ctx, deep=False, only=None):
             compare(family, f, gA, gA, "segment", "same")
             if deep or family == "lap_sl":
                 compare(family, f, gA, gB, "whole", "two-grids")
+            if deep:
                 compare(family, f, gA, gA, "segment-domain", "same")
             if deep:
                 compare(family, f, gB, gA, "segment", "two-grids")
                 compare(family, f, gC, gC, "whole", "open-screen")
                 compare(family, f, gC, gC, "segment", "open-screen")
-            if deep or family in ("lap_sl", "lap_sl_dp0", "lap_adl", "mh_sl"):
+            if deep or (family in ("lap_sl_dp0", "mh_sl", "helm_sl_ck", "lap_dl", "helm_dl", "mh_dl")):
+                # dual (barycentric) test space: DUAL0 for DP0-type, DUAL1 for P1-type test spaces
                 compare(family, f, gA if not deep else gB, gA if not deep else gB, "bary-test", "same")
             if deep:
                 compare(family, f, gB, gB, "bary", "same")
